@@ -14,11 +14,12 @@ ASSUMPTIONS = [
     "pre-state: any accumulator, any pc, any memory image, any 16-bit word in the instruction register, any last-instruction address in [0,4095]",
     "by induction over steps the claim extends to programs and histories of any length (self-modification included: the fetch reads the post-store memory)",
 ]
+ASSUMPTIONS.append("reuse harness: every ordered pair of 5 TOY program texts (data words symbolic), the first run to completion through run() / step() / the half-cycle API, the second loaded on the same object and compared step by step with a fresh object")
 RULE = "one case = one feasible path of ToySimulation.step() (decode of IR x branch x halt x decode of the fetched word), all data symbolic"
 
 
 def bounds(tier):
-    return {"steps": 1, "instruction_words": "all 2^16 (symbolic)", "memory": "total symbolic 4096 x 16-bit store"}
+    return {"steps": 1, "instruction_words": "all 2^16 (symbolic)", "memory": "total symbolic 4096 x 16-bit store", "reuse_pairs": 25, "reuse_program_steps": "<= 40"}
 
 
 def h_step(e):
@@ -71,11 +72,97 @@ def h_step(e):
     e.claim("has_started", sim.has_started is True)
 
 
-HARNESSES = {"step": h_step}
+# ---------------------------------------------------------------------------------------------------
+# programs on a simulation object that already ran another program (call history load, run, load,
+# run): what executes is what the *current* memory holds, whatever the object decoded before
+# ---------------------------------------------------------------------------------------------------
+
+REUSE_TEXTS = [
+    # (name, text with {a} {b} = symbolic data words)
+    ("count", ".data\nn: .word {a}\nr: .word {b}\n.text\nLDA n\nADD r\nSTO r\nINC\nSTO n"),
+    ("logic", ".data\nx: .word {a}\ny: .word {b}\n.text\nLDA x\nXOR y\nNOT\nSTO y\nDEC\nAND x\nSTO x"),
+    ("branch", ".data\nx: .word {a}\ny: .word {b}\n.text\nLDA x\nBRZ skip\nLDA y\nskip: OR x\nSTO y"),
+    ("selfmod", ".data\nx: .word {a}\ny: .word {b}\n.text\nLDA patch\nSTO slot\nLDA x\nslot: NOP\nSTO x\npatch: ADD y"),
+    ("short", ".data\nx: .word {a}\n.text\nZRO\nSUB x\nSTO x"),
+]
+
+
+def _toy_final(e, sim, q):
+    st = sim.state
+    pm = st.performance_metrics
+    return {
+        "accu": val(st.accu),
+        "pc": val(st.program_counter),
+        "mem[q]": val(st.memory.read_halfword(q)),
+        "max_pc": val(st.max_pc),
+        "halted": st.loaded_instruction is None,
+        "cycles": val(pm.cycles),
+        "instruction_count": val(pm.instruction_count),
+        "branch_count": val(pm.branch_count),
+    }
+
+
+def h_reuse(e, first, second, via):
+    """first program loaded and run on a ToySimulation, then the second loaded on the same object and
+    run; the result must equal the second program's run on a fresh object.  via = run | step |
+    half (stepping API used for the first program)."""
+    from architecture_simulator.simulation.toy_simulation import ToySimulation
+    from checks.asm import Text
+
+    Tx = Text(e)
+    a1, b1 = e.int("a1", 0, 0xFFFF), e.int("b1", 0, 0xFFFF)
+    a2, b2 = e.int("a2", 0, 0xFFFF), e.int("b2", 0, 0xFFFF)
+    t1 = dict(REUSE_TEXTS)[first].format(a=Tx.num(a1), b=Tx.hexnum(b1))
+    t2a = dict(REUSE_TEXTS)[second].format(a=Tx.num(a2), b=Tx.hexnum(b2))
+    t2b = dict(REUSE_TEXTS)[second].format(a=Tx.num(a2), b=Tx.hexnum(b2))
+    used = ToySimulation()
+    used.load_program(t1)
+    n = 0
+    while not used.is_done() and n < 40:
+        if via == "run":
+            used.run()
+        elif via == "step":
+            used.step()
+        else:
+            used.first_cycle_step()
+            used.second_cycle_step()
+        n += 1
+    e.claim("first-program-terminates", used.is_done())
+    used.load_program(t2a)
+    fresh = ToySimulation()
+    fresh.load_program(t2b)
+    k = 0
+    while not fresh.is_done() and k < 40:
+        fresh.step()
+        used.step()
+        k += 1
+        e.claim_eq("reused-object-executes-what-memory-holds:accu@%d" % k, val(used.state.accu), val(fresh.state.accu))
+        e.claim_eq("reused-object-executes-what-memory-holds:pc@%d" % k, val(used.state.program_counter), val(fresh.state.program_counter))
+    e.claim("second-program-terminates", fresh.is_done() and used.is_done())
+    q = e.concretize(e.int("q", 4090, 4095)) if e.mode == "sym" else e.int("q", 4090, 4095)
+    A, B = _toy_final(e, used, q), _toy_final(e, fresh, q)
+    e.observe("steps", k)
+    e.observe("accu", B["accu"])
+    for key in A:
+        e.claim_eq("reused==fresh:" + key, A[key], B[key])
+    for adr in range(0, 8):
+        e.claim_eq("reused==fresh:mem[%d]" % adr, val(used.state.memory.read_halfword(adr)), val(fresh.state.memory.read_halfword(adr)))
+    e.claim("canary:reuse", cond("==", A["accu"], B["accu"] + 1))
+
+
+HARNESSES = {"step": h_step, "reuse": h_reuse}
 
 
 def jobs(tier, seed):
-    return [{"label": "toy-step", "harness": "step", "args": {}, "cost": 10}]
+    out = [{"label": "toy-step", "harness": "step", "args": {}, "cost": 10}]
+    names = [n for n, _ in REUSE_TEXTS]
+    k = 0
+    for f in names:
+        for s_ in names:
+            via = ("run", "step", "half")[k % 3]
+            k += 1
+            out.append({"label": "reuse-%s-%s-%s" % (f, s_, via), "harness": "reuse", "args": {"first": f, "second": s_, "via": via}, "cost": 3, "validate_every": 1})
+    return out
 
 
 if __name__ == "__main__":
